@@ -99,6 +99,7 @@ type Config struct {
 	IterAcrossRevert bool // an unfinished iterator is open across every FlushRevert
 	RefOnly          bool // with RefMon: ItemAddRef/ItemDecRef without ItemAlloc (items made by the store start at one)
 	Recycle          bool // with RefMon: items whose count reaches zero are wiped (recycling allocator)
+	TouchMany        bool // with CBTouchOther: up to four touches per Flush, each of another item
 	NoCmpCallback    bool // never install KeyCompareForCollection (the case keeps every state it loads in the default order)
 	MemOnly          bool
 	CB               CBMask
@@ -174,17 +175,18 @@ type Env struct {
 	Peers []*Env
 	// Cmps fixes the comparator of every collection name for the whole case
 	// (supplied again through KeyCompareForCollection on every open).
-	Cmps          map[string]model.Cmp
-	lastFlushStep int
-	lastSeq       []TreeItem
-	depthCache    map[string]int
-	depthEpoch    int64
-	depthName     string
-	swapBad       int64
-	touching      bool
-	touchedStep   int
-	touches       int64
-	replaces      int64
+	Cmps            map[string]model.Cmp
+	lastFlushStep   int
+	lastSeq         []TreeItem
+	depthCache      map[string]int
+	depthEpoch      int64
+	depthName       string
+	swapBad         int64
+	touching        bool
+	touchesThisStep int
+	touchedStep     int
+	touches         int64
+	replaces        int64
 	// DstPre, when set, makes the next CopyTo copy into a file that already holds this store.
 	DstPre *DstPre
 	// LastCopyModel is the state the destination of the last successful CopyTo must hold.
@@ -460,17 +462,35 @@ func (e *Env) callbacks() gkvlite.StoreCallbacks {
 	if m&CBTouchOther != 0 {
 		inner := cb.BeforeItemWrite
 		cb.BeforeItemWrite = func(c *gkvlite.Collection, i *gkvlite.Item) (*gkvlite.Item, error) {
-			if !e.touching && e.S != nil && e.touchedStep != e.Step && e.Fault == nil { // (not while a fault is armed: the harness call would consume or swallow it)
+			if e.touchedStep != e.Step {
+				e.touchesThisStep = 0
+			}
+			if !e.touching && e.S != nil && (e.touchedStep != e.Step || (e.Cfg.TouchMany && e.touchesThisStep < 4)) && e.Fault == nil { // (not while a fault is armed: the harness call would consume or swallow it)
 				e.touching = true
 				e.touchedStep = e.Step
+				e.touchesThisStep++
 				for _, n := range e.M.Live.Names() {
 					oc, mc := e.H[n], e.M.Live.Colls[n]
 					if n == c.Name() || oc == nil || len(mc.Items) == 0 {
 						continue
 					}
-					kv := mc.Sorted()[0]
-					if oc.SetItem(&gkvlite.Item{Key: append([]byte{}, kv.Key...), Val: append(make([]byte, 0, len(kv.Val)), kv.Val...), Priority: kv.Prio}) == nil {
-						atomic.AddInt64(&e.touches, 1)
+					if e.Cfg.TouchMany && n < c.Name() {
+						continue // (written already: the Flush is done with the version it pinned)
+					}
+					srt := mc.Sorted()
+					reps := 1
+					if e.Cfg.TouchMany {
+						// several new versions during one Flush, each replacing another path of the tree
+						reps = 3
+					}
+					for rep := 0; rep < reps; rep++ {
+						kv := srt[0]
+						if e.Cfg.TouchMany {
+							kv = srt[(int(atomic.LoadInt64(&e.touches))*7+len(srt)/2)%len(srt)]
+						}
+						if oc.SetItem(&gkvlite.Item{Key: append([]byte{}, kv.Key...), Val: append(make([]byte, 0, len(kv.Val)), kv.Val...), Priority: kv.Prio}) == nil {
+							atomic.AddInt64(&e.touches, 1)
+						}
 					}
 					break
 				}
